@@ -86,10 +86,7 @@ def ctor_input(form, M):
     if form == 'rowarrays':
         return [M[i].copy() for i in range(r)], {}
     if form == 'rowdicts':
-        d = [{(0, j): float(M[i, j]) for j in range(c) if M[i, j] != 0} for i in range(r)]
-        if not any(d):
-            d[0][(0, 0)] = 0.0          # the form cannot express "no entry at all"
-        return d, {}
+        return [{(0, j): float(M[i, j]) for j in range(c) if M[i, j] != 0} for i in range(r)], {}
     if form == 'sparserows':
         return [csr_matrix(M[i:i + 1]) for i in range(r)], {}
     if form == 'csr':
